@@ -607,7 +607,14 @@ func (idx *indexer) indexSince(txID uint64) error {
 	bulkSize := 0
 	indexableEntries := 0
 
-	for i := 0; i < idx.maxBulkSize; i++ {
+	maxBulkSize := idx.maxBulkSize
+	if idx.spec.InjectiveMapping {
+		// the previous version of a row is looked up in the source index as of txID-1,
+		// which is only right for the first tx of a bulk: one tx per bulk
+		maxBulkSize = 1
+	}
+
+	for i := 0; i < maxBulkSize; i++ {
 		err := idx.store.readTx(txID+uint64(i), false, false, idx.tx)
 		if err != nil {
 			return err
@@ -750,7 +757,7 @@ func (idx *indexer) indexSince(txID uint64) error {
 
 		bulkSize++
 
-		if bulkSize < idx.maxBulkSize {
+		if bulkSize < maxBulkSize {
 			if idx.adaptiveBulkSize {
 				// D3 follow-up: peek without waiting. WaitFor's fast path
 				// returns nil immediately when doneUpto >= t; an
